@@ -29,7 +29,7 @@ Qed.
 Lemma eligible_class k pid p : kget pid k = Some p ->
   (exists l, get_eligible_cpus pid k = Val l) \/ get_eligible_cpus pid k = Exc ValueError.
 Proof.
-  intros Hg. unfold get_eligible_cpus. rewrite Hg.
+  intros Hg. unfold get_eligible_cpus, parse_status. rewrite Hg.
   destruct (find_list_line (split_on 10 (k_status p))) as [v|]; [|left; eexists; reflexivity].
   destruct (contains 45 v); [|left; eexists; reflexivity].
   destruct (mapM_parse_class (split_on 44 v)) as [[l ->]| ->]; cbn [obind]; [left; eexists; reflexivity|right; reflexivity].
@@ -85,14 +85,15 @@ Proof.
   assert (Hne : p_elig p <> []).
   { intros E. pose proof (wf_mask_ne p F) as Hm. pose proof (wf_mask_sub p F) as Hs.
     destruct (p_mask p) as [|x xs]; [congruence|]. specialize (Hs x (or_introl eq_refl)). rewrite E in Hs. destruct Hs. }
-  destruct r as [v|c v|cpus|res lim].
+  destruct r as [v|c v|cpus|res lim|res sv].
   - exact (meets_nice k pid p v exp Hg Hspec).
-  - exact (meets_ionice k pid p c v exp Hg (wf_io p F) Hspec).
+  - exact (meets_ionice k pid p c v exp Hg (reported_range k p (wf_nice p F) (wf_io p F)) Hspec).
   - destruct cpus as [[|c cs]|].
     + exact (meets_aff_empty k pid p exp Hg (wf_elig_rng p F) Hne Hspec).
     + destruct (all_in (c :: cs) (p_elig p)) eqn:Hall.
       * exact (meets_aff_valid k pid p c cs exp Hg (wf_elig_rng p F) Hall Hspec).
       * exact (meets_aff_invalid k pid p c cs exp Hg Hall Hspec).
     + exact (meets_aff_get k pid p exp Hg Hnr (wf_mask_sorted p F) Hspec).
-  - exact (meets_rlimit k pid p res lim exp Hg Hpid Hspec).
+  - exact (meets_rlimit k pid p res lim exp Hg Hpid (wf_rlim_len p F) Hspec).
+  - unfold spec_req in Hspec. rewrite Hg in Hspec. discriminate.
 Qed.
